@@ -1,8 +1,8 @@
 """C11 — deferred traits mirror their target: delegation and prototyping."""
 import gc
 
-from traits.api import (DelegatesTo, HasTraits, Instance, Int,
-                        PrototypedFrom, TraitError)
+from traits.api import (DelegatesTo, HasStrictTraits, HasTraits, Instance,
+                        Int, PrototypedFrom, TraitError)
 
 LEVEL = "model_checking"
 RULE = ("every history up to the depth bound over: assign through the "
@@ -80,6 +80,17 @@ class Middle(HasTraits):
 class Top(HasTraits):
     middle = Instance(Middle)
     w = DelegatesTo("middle", prefix="width")
+
+
+class Engine(HasStrictTraits):
+    power = Int
+
+
+class Car(HasTraits):
+    """defers onto a name its strict delegate does not declare: the
+    delegate's own rule for undeclared names governs"""
+    engine = Instance(Engine)
+    torque = DelegatesTo("engine", listenable=False)
 
 
 ALL_ATTRS = {"x": "x", "xx": "y", "q": "pre_q", "r": "pp_r", "t": "_t",
@@ -356,6 +367,40 @@ def canon(w):
     return (w.kind, w.P, sorted(w.L.items()), w.cur)
 
 
+def strict_target(ctx):
+    """one-off cells: DelegatesTo onto an undeclared name of a strict target"""
+    for v in (5, "bad"):
+        ctx.case({"kind": "strict", "value": v})
+        ctx.ev()
+        ctx.tr()
+        car = Car(engine=Engine())
+        try:
+            car.torque = v
+            ctx.violation("C11:strict-target-accepted", "a value written "
+                          "through a DelegatesTo onto an undeclared name of a "
+                          "HasStrictTraits delegate was accepted",
+                          kind="strict", history=[["set", v]])
+        except TraitError:
+            ctx.outcome("invalid-rejected")
+        except Exception as e:
+            ctx.violation("C11:strict-target-raises", "raised %r" % (e,),
+                          kind="strict", history=[["set", v]])
+        if "torque" in car.engine.__dict__:
+            ctx.violation("C11:strict-target-stored", "the strict delegate "
+                          "now holds the undeclared name", kind="strict",
+                          history=[["set", v]])
+        try:
+            car.torque
+            ctx.violation("C11:strict-target-readable", "undeclared name "
+                          "readable through the deferring attribute",
+                          kind="strict", history=[["set", v], ["get"]])
+        except AttributeError:
+            pass
+        except Exception as e:
+            ctx.violation("C11:strict-target-raises", "read raised %r" % (e,),
+                          kind="strict", history=[["get"]])
+
+
 def run_history(ctx, kind, hist):
     w = World(kind)
     for i, ev in enumerate(hist):
@@ -398,6 +443,8 @@ def run_shard(ctx, shard, tier):
                 if ok and ctx.state((key, )):
                     nxt.append(h2)
         frontier = nxt
+    if kind == "chain" and shard["first"] == 0:
+        strict_target(ctx)
     ctx.depth_completed = depth
     ctx.sample({"kind": kind, "history": frontier[0] if frontier
                 else [evs[shard["first"]]]})
